@@ -1212,6 +1212,18 @@ class TypeWorld:
         self._typers[key] = t
         return t
 
+    def typer_for(self, fn: Fn, self_kind: Optional[K] = None) -> Typer:
+        """kinds of the expressions of a (normalised) copy of a function: `Model.nfn(...)` hands out a copy whose nodes the
+        typers of the original do not know"""
+        key = ("#nfn", id(fn.node), self_kind)
+        if key not in self._typers:
+            closure = None
+            if fn.outer_fn is not None:
+                outer = self.typer(fn.outer_fn, self_kind)
+                closure = dict(outer.env) if outer is not None else None
+            self._typers[key] = Typer(self.M, self, fn, self_kind, None, closure=closure)
+        return self._typers[key]
+
     def return_kind(self, fq: str, recv: Optional[K], e: Optional[ast.Call], argk, kwk, ty: Optional[Typer]) -> K:
         fn = self.M.funcs.get(fq)
         if fn is None:
